@@ -37,7 +37,7 @@ class UDPListener:
                  startup_broadcast=True):
         self.equipment_id = equipment_id
         self.log = logger
-        self.description = description or ''
+        self.description = ''
         self.firmware = 'FRAPPY ' + get_version()
         self.ports = [int(iface.split('://')[1])
                       for iface in ifaces if iface.startswith('tcp')]
@@ -54,21 +54,22 @@ class UDPListener:
             self.sock.setsockopt(socket.SOL_SOCKET, socket.SO_BROADCAST, 1)
         self.sock.bind(('0.0.0.0', UDP_PORT))
 
+        # space left for the description: as JSON escapes may make a character
+        # longer in the message than in the description itself, the budget
+        # is counted in bytes of the encoded message
         available = MAX_MESSAGE_LEN - len(self._getMessage(2**16-1))
         if available < 0:
-            desc_length = len(self.description.encode('utf-8'))
-            if available + desc_length < 0:
-                self.log.warn('Equipment id and firmware name exceed 430 byte '
-                              'limit, not answering to udp discovery')
-                self.is_enabled = False
-            else:
-                self.log.debug('truncating description for udp discovery')
-                # with errors='ignore', cutting insite a utf-8 glyph will not
-                # report an error but remove the rest of the glyph from the
-                # output.
-                self.description = self.description \
-                                       .encode('utf-8')[:available] \
-                                       .decode('utf-8', errors='ignore')
+            self.log.warn('Equipment id and firmware name exceed 430 byte '
+                          'limit, not answering to udp discovery')
+            self.is_enabled = False
+        else:
+            for char in description or '':
+                available -= len(json.dumps(char, ensure_ascii=False)
+                                 .encode('utf-8')) - 2
+                if available < 0:
+                    self.log.debug('truncating description for udp discovery')
+                    break
+                self.description += char
 
     def _getMessage(self, port):
         return json.dumps({
